@@ -102,6 +102,8 @@ pub fn exec(toks: &[&str]) -> String {
     let mut fresh = ShmReader::new(&c).ok();
     let fresh_t = if fresh.is_some() { snap_text(&mut fresh) } else { match ShmReader::new(&c) { Err(e) => shm_err_text(&e).replace(' ', "_"), Ok(_) => "?".into() } };
     let att2 = if len2 >= 72 && len1 >= 72 { snap_text(&mut attached) } else if attached.is_some() { "sigbus-hazard".into() } else { "none".into() };
+    drop(fresh); drop(attached);
+    close_leaked(&path);
     format!("ev {} ; crashed open:{} file:{} attached:{} ; restarted{} inode_same:{} len:{} fresh:{} attached:{}",
         ev, open1, len1, att1, if r.is_err() { "-panic" } else { "" }, (inode_before != 0 && inode_before == inode_after) as u8, len2, fresh_t, att2)
 }
